@@ -48,7 +48,10 @@ def values_for(shape, rnd):
     if shape['frag']:
         prim['frag_off'], prim['total'] = pick(), pick()
     blocks = []
-    nums = rnd.sample([2, 3, 23, 24, 255, 256, 65536, 2 ** 32], len(shape['blocks']) - 1)
+    if len(shape['blocks']) <= 9:
+        nums = rnd.sample([2, 3, 23, 24, 255, 256, 65536, 2 ** 32], len(shape['blocks']) - 1)
+    else:
+        nums = list(range(2, 1 + len(shape['blocks'])))
     kinds = ['hop', 'prev', 'age', 'unknown']
     for (crc, num) in zip(shape['blocks'][:-1], nums):
         kind = rnd.choice(kinds)
@@ -199,6 +202,12 @@ def executions(tier, seed):
     reps = 1 if tier == 'quick' else 6
     if tier == 'quick':
         all_shapes = rnd.sample(all_shapes, 400)
+    # many extension blocks: the number of items of the outer (indefinite-length) array crosses the CBOR
+    # one-octet head limit at 24 and the two-octet one at 256
+    for nblk in ((22, 23, 24, 25, 40) if tier == 'quick' else (21, 22, 23, 24, 25, 26, 40, 254, 255, 256, 257, 300)):
+        for crcp in (0, 2):
+            all_shapes.append({'frag': False, 'crcp': crcp, 'blocks': [(i + crcp) % 3 for i in range(nblk)],
+                               'admin': False, 'times': False, 'rfrag': False})
     traces, metas = [], []
     for shape in all_shapes:
         for _ in range(reps):
